@@ -26,7 +26,8 @@ def set_threads(n):
 
 # parent folders the scratch caches are placed under: names that look like the library's own files and patch folders,
 # so that anything derived from the spelling of a cache path (rather than from the patch folder's own name) shows
-_PATH_SHAPES = ["", "npatch_8", "patch_3", "run.patch_12.d", "patch_ids.bin", "trees.pkl", "meta.yml", "patch_0", "binning"]
+_PATH_SHAPES = ["", "npatch_8", "patch_3", "run.patch_12.d", "patch_ids.bin", "trees.pkl", "meta.yml", "patch_0", "binning",
+                "run_{a}", "x{{y", "n{0}", "z{}"]      # legal folder names that are not legal format strings
 
 
 def fresh_dir(ctx, name):
